@@ -1,3 +1,4 @@
 /- The second group of byte-level format models (imported by the generated `Gen/LayoutsW.lean` and the driver `Drv/FmtW`). -/
 import Iodata.Model.Fmt.FcidumpW
 import Iodata.Model.Fmt.PoscarW
+import Iodata.Model.Fmt.FchkO
